@@ -21,6 +21,7 @@ type Tok struct {
 	Body        []byte
 	Live        []byte // the slice the lexer returned (for the stability clause), nil when a caller buffer was reused
 	Att         *ref.Attachment
+	Declared    uint64 // data size the attachment reader declared
 	ComputedCRC uint32
 	ParsedCRC   uint32
 	CRCErr      string
@@ -33,6 +34,7 @@ type LexOpts struct {
 	NoAttCallback                                        bool
 	Decomp                                               map[mcap.CompressionFormat]mcap.ResettableReader
 	ReuseBuf                                             bool
+	ParsedCRCFirst                                       bool // ask for the stored CRC before the computed one
 	Limit                                                int // stop after this many tokens (0 = none); guards against unbounded streams
 }
 
@@ -61,7 +63,7 @@ func Lex(r io.Reader, o LexOpts) (res *LexResult) {
 	if !o.NoAttCallback {
 		lo.AttachmentCallback = func(ar *mcap.AttachmentReader) error {
 			data, err := io.ReadAll(ar.Data())
-			t := Tok{Type: TokAttachment, Att: &ref.Attachment{LogTime: ar.LogTime, CreateTime: ar.CreateTime, Name: ar.Name, MediaType: ar.MediaType, Data: data}}
+			t := Tok{Type: TokAttachment, Declared: ar.DataSize, Att: &ref.Attachment{LogTime: ar.LogTime, CreateTime: ar.CreateTime, Name: ar.Name, MediaType: ar.MediaType, Data: data}}
 			if err != nil {
 				// a careful caller propagates read errors; the data seen so far is still recorded
 				res.Toks = append(res.Toks, t)
@@ -71,8 +73,15 @@ func Lex(r io.Reader, o LexOpts) (res *LexResult) {
 				res.Toks = append(res.Toks, t)
 				return fmt.Errorf("attachment data ended after %d of %d bytes: %w", len(data), ar.DataSize, io.ErrUnexpectedEOF)
 			}
-			c1, e1 := ar.ComputedCRC()
-			c2, e2 := ar.ParsedCRC()
+			var c1, c2 uint32
+			var e1, e2 error
+			if o.ParsedCRCFirst {
+				c2, e2 = ar.ParsedCRC()
+				c1, e1 = ar.ComputedCRC()
+			} else {
+				c1, e1 = ar.ComputedCRC()
+				c2, e2 = ar.ParsedCRC()
+			}
 			t.ComputedCRC, t.ParsedCRC = c1, c2
 			t.Att.CRC = c2
 			if e1 != nil {
